@@ -254,3 +254,13 @@ Definition run (cs : list case) : list (N * N * N) :=
     (fun c => opt_eqb obs_eqb (model (c_in c)) (c_obs c))
     (fun c => negb (wf (c_in c)) || spec_ok (c_in c) (c_obs c))
     (fun c => fp (c_in c)) cs.
+
+(* ---------- what a legal override entry is (statement of C02_levels) ---------- *)
+Definition legal_entry (kv : string * string) : Prop :=
+  ((fst kv = "authenticity" \/ fst kv = "authenticTimestamp" \/ fst kv = "expiry")
+   /\ (snd kv = "enforce" \/ snd kv = "log"))
+  \/ (fst kv = "revocation" /\ (snd kv = "enforce" \/ snd kv = "log" \/ snd kv = "skip")).
+
+(* the enforcement map of a named level with an override, when GetVerificationLevel accepts it *)
+Definition level_for (name : string) (ov : amap) : option level :=
+  match get_level name ov with inr (_, enf) => Some (level_of enf) | inl _ => None end.
